@@ -46,7 +46,7 @@ def sortStrs (xs : List String) : List String := xs.mergeSort (fun a b => decide
 
 def dump (db : Db) : String :=
   "U=" ++ ";".intercalate (sortStrs (db.users.map dumpUser)) ++
-  "|C=" ++ ";".intercalate (sortStrs (db.channels.map dumpChan)) ++
+  "|C=" ++ ";".intercalate (sortStrs ((db.channels.filter (fun p => decide (p.2 ≠ Channel.default))).map dumpChan)) ++
   "|D=" ++ encSet db.defaults ++ "|R=" ++ encSet db.registered ++ "|F=" ++ encB db.defaultFlag
 
 def withUser (st : DState) (id : Nat) (f : User → R User) : DState × String :=
@@ -119,7 +119,15 @@ def step (st : DState) : List String → DState × String
     | _, _ => (st, "bad-op")
   | ["uhost", id, m] =>
     match id.toNat?, dec m with
-    | some id, some m => withUser st id (fun u => .ok { u with hostmasks := if m ∈ u.hostmasks then u.hostmasks else u.hostmasks ++ [m] })
+    | some id, some m =>
+      -- IrcSet: elements are IrcStrings, equal when their `toLower` forms are equal
+      withUser st id (fun u => .ok { u with hostmasks :=
+        if (u.hostmasks.any (fun x => toLower x == toLower m)) then u.hostmasks else u.hostmasks ++ [m] })
+    | _, _ => (st, "bad-op")
+  | ["uhosts", id, ms] =>
+    -- resynchronise a user's hostmask set (effects of the stateful lookup are modelled in C04)
+    match id.toNat?, decList ms with
+    | some id, some ms => withUser st id (fun u => .ok { u with hostmasks := ms })
     | _, _ => (st, "bad-op")
   | ["uauth", id, t, m] =>
     match id.toNat?, t.toInt?, dec m with
